@@ -5,12 +5,12 @@ package main
 var props = map[string]propCfg{
 	"C12": {
 		Modules: []string{"pkg/slice"},
-		Bounded: []func(*run){boundedExternals("TestAppend", "TestSortFunc")},
+		Bounded: []func(*run){boundedExternals("TestAppend", "TestSortFunc"), leanLemma("C12History.lean", "C12-history", "per-call strong frame + monotone allocation counter imply that every slice value keeps its contents at every later time (induction over histories)")},
 		Decided: []string{
 			"strong frame on every function of package slice: no cell of any backing array that existed before the call is written, for all lengths, offsets, capacities and aliasing of the arguments",
 			"write discipline: every store (in-place append, sort) goes into an array allocated by the running call itself",
 		},
-		NotDecided: []string{"the history lemma (per-call frame implies every value keeps its contents over any call sequence) is an induction over histories stated in DESIGN §4 C12, not machine-checked by the SMT back end"},
+		NotDecided: []string{"the history lemma (per-call frame implies every value keeps its contents over any call sequence) is an induction over histories: machine-checked by Lean 4 in the thorough tier (lemmas/C12History.lean), an argument in DESIGN §4 C12 in the quick tier"},
 	},
 	"C13": {
 		Modules: []string{"pkg/slice"},
@@ -25,6 +25,7 @@ var props = map[string]propCfg{
 			"strings: each wrapper equals the SMT-string definition of its Go counterpart with the pipeline argument order; Concat = join",
 			"buf: writes accumulate in order; frt: Pipe/IfElse/IfElseUnit/IfOnly call traces, tuple inverse laws, formatting helpers route to fmt in argument order, toS never panics",
 		},
+		Scans: []func(*run){glueLemmas("join")},
 	},
 	"C10": {
 		Modules: []string{"pkg/frt", "fc"},
@@ -55,6 +56,7 @@ var props = map[string]propCfg{
 		},
 		NotDecided:   []string{"parser half: that parseType and friends build the FType the documented grammar prescribes (precedence of [] over *, -> nesting only through parentheses) is NOT proved: a bounded enumeration (depth 2, 3 syntactic positions) stands in for it, labelled bounded", "forward-declaration placeholders (transTRecurse) and generic user types"},
 		BoundedQuick: []func(*run){boundedC15Parser},
+		Scans:        []func(*run){glueLemmas("join")},
 	},
 	"C18": {
 		Modules: []string{"cmd/build_sample_md"},
@@ -64,6 +66,7 @@ var props = map[string]propCfg{
 			"processListFile writes header + sections joined by newline, one section per non-empty line in list order, to Join(Dir(list), dest); every other path is unchanged; any panic (unreadable list or listed file) leaves the file system untouched (no partial README)",
 		},
 		NotDecided: []string{"main's argument handling beyond routing one argument to processListFile(\"README.md\", arg)", "the result of the final write is ignored by the tool (observation): a failed write returns normally with nothing written"},
+		Scans:      []func(*run){glueLemmas("join")},
 	},
 	"C07": {
 		Modules: []string{"fc", "pkg/sys"},
@@ -116,7 +119,7 @@ var props = map[string]propCfg{
 			"L4 closed set: Tokenizer.col is read only by psCurCol and tkzNext, offsideCol only by the offside primitives and the parse-state constructors (scan)",
 		},
 		NotDecided: []string{"the grammar-level clauses (if on one line or several, right-hand side on the same or the next line, a pipeline broken before |>, blank lines and comments between statements): they are placements of psSkipEOL in thirty parser functions and need a relational proof of the whole parser; NOT decided"},
-		Scans:      []func(*run){scanColumnReaders},
+		Scans:      []func(*run){glueLemmas("linestart"), scanColumnReaders},
 	},
 	"C11": {
 		Modules: []string{"fc", "pkg/frt"},
@@ -128,6 +131,7 @@ var props = map[string]propCfg{
 			"emitters: a string literal is emitted as \" + body + \", an interpolated literal as frt.SInterP(\"format\", vars...); frt.SInterP / toS render arguments as the statement says (C14 contracts)",
 		},
 		NotDecided: []string{"that Go's string-literal syntax un-escapes what the raw-string re-escaping produces, and that fmt.Sprintf substitutes %s / %% as assumed: properties of Go, stated as assumptions, not proved", "a raw newline inside \"...\" (Go rejects the emitted literal): read as outside the literal alphabet of the statement"},
+		Scans:      []func(*run){glueLemmas("join")},
 	},
 	"C03": {
 		Modules: []string{"fc"},
@@ -141,5 +145,6 @@ var props = map[string]propCfg{
 			"partial application (fcPartialApplyGo): a closure whose parameters are _r0.._rk typed by the missing parameter types, calling the callee (explicit type arguments kept) with the supplied arguments first, in source order, then _r0.._rk",
 		},
 		NotDecided: []string{"that the emitted text compiles together with hand-written client Go (needs the Go type checker)", "csRegisterCtor (references resolve to the var or func by the same rule) registers closures in dictionaries: not under contract", "a match on a generic union emits case U_C without type arguments (observation, a C01-level defect)"},
+		Scans:      []func(*run){glueLemmas("join")},
 	},
 }
